@@ -283,17 +283,8 @@ Definition step (w : world) (e : event) : world * string :=
       let rc := recv_of m0 in
       let '(s1, act) := call hinfo N haccepts hdebug (w_cfg w) (w_state w) m a in
       let w1 := set_state w s1 in
-      (* Rc/Arc receiver held by its only owner: to_delegator clones the instance and drops the
-         caller's pointer BEFORE the body runs (src/default_impl_delegator.rs) *)
-      let early_drop :=
-        match rc, act with
-        | RRcSole, ActDefault =>
-          drop_panic hinfo (w_bc w1) (w_cfg w1) s1 x it (count_after_release (w_insts w1) it + 1)
-        | _, _ => None
-        end in
-      match early_drop with
-      | Some msg => (kill w1 i it, "P:" ++ msg)
-      | None =>
+      (* Rc/Arc receiver held by its only owner: to_delegator moves the instance into the
+         delegator (Rc::try_unwrap), exactly like a by-value receiver *)
         let '(s2, ar2, r) := eval_act 12 (w_cfg w) (w_armed w) s1 m a (a + 1) act in
         let w2 := set_armed (set_state w1 s2) ar2 in
         match rc with
@@ -308,17 +299,12 @@ Definition step (w : world) (e : event) : world * string :=
           match r with
           | inr _ => (kill w2 i it, show_res r)
           | inl _ =>
-            match rc, act with
-            | RRcSole, ActDefault => (kill w2 i it, show_res r)     (* already dropped before the body *)
-            | _, _ =>
-              match drop_panic hinfo (w_bc w2) (w_cfg w2) s2 x it (count_after_release (w_insts w2) it) with
-              | None => (kill w2 i it, show_res r)
-              | Some msg => (kill w2 i it, "P:" ++ msg)
-              end
+            match drop_panic hinfo (w_bc w2) (w_cfg w2) s2 x it (count_after_release (w_insts w2) it) with
+            | None => (kill w2 i it, show_res r)
+            | Some msg => (kill w2 i it, "P:" ++ msg)
             end
           end
         end
-      end
     end
   | BClone i =>
     match live_inst w i with
